@@ -3,6 +3,9 @@ package pure
 import (
 	"fmt"
 	"math/big"
+	"os"
+	"strconv"
+	"strings"
 	"testing"
 
 	"github.com/gnolang/gno/tm2/pkg/overflow"
@@ -194,6 +197,15 @@ func TestC19_Exhaustive(t *testing.T) {
 	if r.Thorough() {
 		types = append(types, "int16", "uint16")
 	}
+	// The thorough tier is sharded (VERIF_SHARD of VERIF_SHARDS): a shard takes the first operands a
+	// with index = shard (mod shards). For the 16-bit types the full 2^32 pair space per operation is
+	// thinned to every 53rd second operand, at an offset that rotates with a (all residues are met over
+	// neighbouring a), plus every boundary value as second operand; 8-bit stays exhaustive.
+	shard, shards := 0, 1
+	if v, err := strconv.Atoi(os.Getenv("VERIF_SHARDS")); err == nil && v > 1 {
+		shards = v
+		shard, _ = strconv.Atoi(os.Getenv("VERIF_SHARD"))
+	}
 	one := func(typ, op string, A, B *big.Int) bool {
 		c := c19Case{typ, op, A.String(), B.String()}
 		err := r.Do(c, func(ctx *vk.Ctx) error {
@@ -206,15 +218,38 @@ func TestC19_Exhaustive(t *testing.T) {
 	}
 	for _, typ := range types {
 		lo, hi := c19Range(typ)
+		wide := strings.HasSuffix(typ, "16")
+		step := int64(1)
+		if wide {
+			step = 53
+		}
+		bounds := c19Boundaries(typ)
 		for _, op := range c19Ops {
+			ai := 0
 			for a := new(big.Int).Set(lo); a.Cmp(hi) <= 0; a.Add(a, big.NewInt(1)) {
-				for b := new(big.Int).Set(lo); b.Cmp(hi) <= 0; b.Add(b, big.NewInt(1)) {
+				ai++
+				if (ai-1)%shards != shard {
+					continue
+				}
+				off := int64(0)
+				if wide {
+					off = int64((ai - 1) / shards * 7 % 53)
+					for _, b := range bounds {
+						if !one(typ, op, a, b) {
+							return
+						}
+					}
+				}
+				for b := new(big.Int).Add(lo, big.NewInt(off)); b.Cmp(hi) <= 0; b.Add(b, big.NewInt(step)) {
 					if !one(typ, op, a, b) {
 						return
 					}
 				}
 			}
 		}
+	}
+	if shard != 0 {
+		return
 	}
 	for _, typ := range []string{"int16", "uint16", "int32", "uint32", "int64", "uint64", "int", "uint"} {
 		bs := c19Boundaries(typ)
